@@ -1,12 +1,16 @@
 SPECIFICATION Spec
-CONSTANTS MaxBr = 4 MaxN = 5 MaxRuns = 2
-  Kinds <- KindsSmall
-  BufSizes <- BufQuick
+CONSTANTS MaxRuns = 2
+  Scenarios <- ScDeep
 INVARIANT OpEqDen
+INVARIANT InterBoth
+INVARIANT InterStateless
 INVARIANT AllActiveAtStart
 INVARIANT OutIsPrefix
 INVARIANT BufBound
+INVARIANT SrcOnlyOnEmpty
 INVARIANT BufsizeIndependent
+INVARIANT EmptySplitIdentity
+INVARIANT EmptyFlowEachOnce
 INVARIANT OnceOnly
 INVARIANT FRAccount
 CHECK_DEADLOCK FALSE
